@@ -394,8 +394,9 @@ func c10Eval(c *fw.Ctx, data any) {
 		}
 		if s.poolSeen {
 			c.Count("pool_checks", 1)
-			if s.poolFull != 0 || s.poolEmpty+1 != s.poolCap {
-				viol("conservation", "buffer-pool", fmt.Sprintf("at quiescence the pool holds %d empty and %d full buffers of %d (expected all but the reader's one to be empty): buffers leaked or duplicated", s.poolEmpty, s.poolFull, s.poolCap))
+			// in = out + held: every buffer is back in the empty queue except at most the one the reader holds
+			if s.poolFull != 0 || s.poolEmpty < s.poolCap-1 {
+				viol("conservation", "buffer-pool", fmt.Sprintf("at quiescence the pool holds %d empty and %d full buffers of %d (expected all, or all but the reader's one, to be empty): buffers leaked", s.poolEmpty, s.poolFull, s.poolCap))
 			}
 			c.Max("pool_generations", int64(len(frames)/maxInt(1, s.poolCap)))
 		} else {
@@ -405,7 +406,7 @@ func c10Eval(c *fw.Ctx, data any) {
 		c.Set("fail_positions", fmt.Sprint(failPos))
 		if len(s.errs) != 1 {
 			viol("error", "published-count", fmt.Sprintf("the connection failed with %q after byte %d; %d values arrived on the error channel: %s", conn.FailErr, failPos, len(s.errs), fmtErrs(s.errs)))
-		} else if s.errs[0] != conn.FailErr {
+		} else if !sameFailure(s.errs[0], conn.FailErr) {
 			viol("error", "published-value", fmt.Sprintf("the connection failed with %q, the error channel carried %q", conn.FailErr, s.errs[0]))
 		}
 		completeBefore := 0
